@@ -910,7 +910,14 @@ pub fn g_init<F: Family>(p: &Program<F>) -> GState<F> {
 pub fn g_steps_of<F: Family>(p: &Program<F>, s: &GState<F>, t: usize, strict: bool) -> Vec<(Label<F::Res>, GState<F>)> {
     let raw = g_steps_raw(p, s, t, strict);
     if raw.iter().any(|(sp, _, _)| *sp) {
-        let other = (0..p.threads.len()).any(|u| u != t && g_steps_raw(p, s, u, strict).iter().any(|(sp, _, _)| !*sp));
+        // A spurious wake-up is only ever offered together with a task that can really run.  In the
+        // implementation a thread whose last operation has returned finishes in that same step (there
+        // is no scheduling point in between), so under the strict discipline a thread that has
+        // nothing left but to finish does not count (false alarm of C02 on the gated park programs:
+        // a second park "completed spuriously" while the only other thread was already past its
+        // last operation).
+        let at_end = |u: usize| s.th[u].pc as usize == p.threads[u].len();
+        let other = (0..p.threads.len()).any(|u| u != t && !(strict && at_end(u)) && g_steps_raw(p, s, u, strict).iter().any(|(sp, _, _)| !*sp));
         raw.into_iter().filter(|(sp, _, _)| !*sp || other).map(|(_, l, n)| (l, n)).collect()
     } else {
         raw.into_iter().map(|(_, l, n)| (l, n)).collect()
@@ -1218,8 +1225,24 @@ pub fn model_outcomes_ex<F: Family>(p: &Program<F>, strict: bool, max_states: us
     while let Some((s, d)) = q.pop_front() {
         stats.depth = stats.depth.max(d);
         let mut any = false;
+        // Strict discipline: a thread / task whose last operation has returned finishes in that same
+        // step of the implementation (no scheduling point in between), so its `Finish` is taken
+        // eagerly instead of being interleaved with the others' steps.  (Without this, outcomes that
+        // depend on "has that thread finished yet" — recorded finding F14, spurious wake-ups — were
+        // demanded although no schedule can separate the two.)  Threads with thread-local
+        // destructors (family `thread`) do have scheduling points after their last operation.
+        let eager: Option<usize> = if strict && s.panic.is_none() && F::NAME != "thread" {
+            (0..p.threads.len()).find(|&t| {
+                s.th[t].st == St::Active && s.th[t].pc as usize == p.threads[t].len() && (!F::ASYNC || s.th[t].flags & STARTED != 0)
+            })
+        } else {
+            None
+        };
         if s.panic.is_none() {
             for t in 0..p.threads.len() {
+                if eager.is_some() && eager != Some(t) {
+                    continue;
+                }
                 for (l, n) in g_steps_of(p, &s, t, strict) {
                     any = true;
                     stats.transitions += 1;
